@@ -1,7 +1,108 @@
-//! C06 replay: real `JsrPackageVersionResolver::resolve_version` on a concrete version world.
+//! C06 replay: the real `JsrPackageVersionResolver::resolve_version` / `JsrVersionResolver::get_for_package`
+//! on a concrete version world. Version i of the universe is `0.0.<i>` (rank order = semver order); an arbitrary
+//! `matches` predicate is expressed as an npm-style union of exact versions.
+use std::collections::HashMap;
+use std::collections::HashSet;
+
+use deno_graph::packages::*;
+use deno_semver::Version;
+use deno_semver::VersionReq;
+use deno_semver::package::PackageReq;
 use serde_json::Value;
 use serde_json::json;
 
-pub fn run(_input: &Value) -> Value {
-  json!({"error": "packages replay not built yet"})
+fn ver(i: u64) -> Version {
+  Version::parse_standard(&format!("0.0.{i}")).unwrap()
+}
+fn date(secs: u64) -> chrono::DateTime<chrono::Utc> {
+  chrono::DateTime::from_timestamp(secs as i64, 0).unwrap()
+}
+
+pub fn run(input: &Value) -> Value {
+  let w = &input["world"];
+  let mut outputs = vec![];
+  for op in input["ops"].as_array().unwrap() {
+    outputs.push(match op["op"].as_str().unwrap() {
+      "resolve_version" => resolve(w),
+      "get_for_package" => exclusion(op),
+      o => json!({"error": format!("unknown op {o}")}),
+    });
+  }
+  json!({"outputs": outputs})
+}
+
+fn exclusion(op: &Value) -> Value {
+  let mut options = NewestDependencyDateOptions::default();
+  let cutoff = op["date"].as_u64();
+  options.date = cutoff.map(|d| NewestDependencyDate(date(d)));
+  if op["exact"].as_bool().unwrap_or(false) {
+    options.exclude_jsr_pkgs.insert("@scope/pkg".into());
+  }
+  for p in op["prefixes"].as_array().unwrap() {
+    // [present, matches]
+    if p[0].as_bool().unwrap() {
+      options.exclude_jsr_pkg_prefixes.push(if p[1].as_bool().unwrap() {
+        "@scope/".into()
+      } else {
+        "@other/".into()
+      });
+    }
+  }
+  let resolver = JsrVersionResolver {
+    newest_dependency_date_options: options,
+  };
+  let info = JsrPackageInfo {
+    versions: HashMap::new(),
+    latest: None,
+  };
+  let r = resolver.get_for_package(&"@scope/pkg".into(), &info);
+  // the cutoff is private: a version created exactly at the probe instant matches iff no cutoff applies
+  let probe = cutoff.unwrap_or(0);
+  let applies = !r.matches_newest_dependency_date(&JsrPackageInfoVersion {
+    created_at: Some(date(probe)),
+    yanked: false,
+  });
+  json!({"cutoff_applies": applies})
+}
+
+fn resolve(w: &Value) -> Value {
+  let mut versions = HashMap::new();
+  for (k, v) in w["registry"].as_object().unwrap() {
+    versions.insert(
+      ver(k.parse().unwrap()),
+      JsrPackageInfoVersion {
+        created_at: v["created_at"].as_u64().map(date),
+        yanked: v["yanked"].as_bool().unwrap(),
+      },
+    );
+  }
+  let info = JsrPackageInfo {
+    versions,
+    latest: None,
+  };
+  let matches: Vec<u64> =
+    w["matches"].as_array().unwrap().iter().map(|x| x.as_u64().unwrap()).collect();
+  let req_text = if matches.is_empty() {
+    "9.9.9".to_string()
+  } else {
+    matches.iter().map(|i| format!("0.0.{i}")).collect::<Vec<_>>().join(" || ")
+  };
+  let req = PackageReq {
+    name: "@scope/pkg".into(),
+    version_req: VersionReq::parse_from_npm(&req_text).unwrap(),
+  };
+  let existing: Vec<Version> =
+    w["existing"].as_array().unwrap().iter().map(|x| ver(x.as_u64().unwrap())).collect();
+  let cached: HashSet<Version> =
+    w["cached"].as_array().unwrap().iter().map(|x| ver(x.as_u64().unwrap())).collect();
+  let mut options = NewestDependencyDateOptions::default();
+  options.date = w["cutoff"].as_u64().map(|d| NewestDependencyDate(date(d)));
+  let resolver = JsrVersionResolver {
+    newest_dependency_date_options: options,
+  };
+  let r = resolver.get_for_package(&"@scope/pkg".into(), &info);
+  match r.resolve_version(&req, existing.iter(), &cached) {
+    Ok(v) => json!({"ok": {"version": v.version.patch, "yanked": v.is_yanked}}),
+    Err(e) => json!({"err": {"date": e.newest_dependency_date.map(|d| d.0.timestamp())}}),
+  }
 }
